@@ -373,3 +373,52 @@ def source_changed():
     except Exception:
         return False
     return source_fingerprint() != base
+
+
+def source_literals(repo=None):
+    """(integer literals, string literals) of the crate's non-test sources"""
+    repo = repo or REPO
+    ints, strs = set(), set()
+    for d, _, fs in os.walk(os.path.join(repo, 'src')):
+        for f in fs:
+            p = os.path.join(d, f)
+            rel = os.path.relpath(p, repo)
+            if not f.endswith('.rs') or f == 'tests.rs' or '/tests/' in rel:
+                continue
+            try:
+                txt = open(p).read()
+            except OSError:
+                continue
+            txt = re.sub(r'//[^\n]*', '', txt)
+            for m in re.finditer(r'\b(0x[0-9a-fA-F_]+|\d[\d_]*)(?:[ui](?:8|16|32|64|size))?\b', txt):
+                s = m.group(1).replace('_', '')
+                try:
+                    ints.add(int(s, 16) if s.startswith('0x') else int(s))
+                except ValueError:
+                    pass
+            for m in re.finditer(r'b?"((?:[^"\\]|\\.)*)"', txt):
+                if 0 < len(m.group(1)) <= 64:
+                    strs.add(m.group(1))
+            for m in re.finditer(r"b'(\\?.)'", txt):
+                strs.add(m.group(1))
+    return ints, strs
+
+
+def new_literals():
+    """literals of the current source that the validated tree did not contain -> (ints, byte strings)"""
+    try:
+        base = json.load(open(os.path.join(VERIF, 'src_baseline.json')))
+        bi, bs = set(base.get('int_literals', [])), set(base.get('str_literals', []))
+    except Exception:
+        return [], []
+    if not bi:
+        return [], []
+    ints, strs = source_literals()
+    ni = sorted(x for x in ints - bi if x < 2 ** 64)
+    ns = []
+    for s in sorted(strs - bs):
+        try:
+            ns.append(s.encode('utf-8').decode('unicode_escape').encode('latin-1'))
+        except Exception:
+            ns.append(s.encode('utf-8', 'replace'))
+    return ni[:200], ns[:50]
